@@ -267,6 +267,8 @@ def gen_train_plan(rng: random.Random, *, tier: str = 'quick',
             'sim': {
                 'policy': rng.choice(sched.POLICIES),
                 'poison': rng.random() < 0.6,
+                'late_read': rng.random() < 0.25,
+                'unordered': rng.random() < 0.25,
                 'latency': rng.choice([0.0, 1e-4, 1e-2]),
                 'bandwidth': rng.choice([1e6, 1e9]),
                 'sched_seed': rng.randrange(1 << 30),
